@@ -8,7 +8,7 @@ use bytes::{Buf, Bytes};
 
 """
 
-from gen import make_call_rule, make_seq_rule, make_for_index_rule, make_ghost_arg_rule, make_for_rule, rule_mut_self
+from gen import make_call_rule, make_seq_rule, make_for_index_rule, make_ghost_arg_rule, make_for_rule, rule_mut_self, make_mut_param_rule
 
 R_PREALLOC = make_call_rule("R-prealloc", "Vec::with_capacity", "verif_with_capacity", "Ghost(verif_prealloc_budget)")
 
@@ -64,7 +64,8 @@ use std::path::{Path, PathBuf};
 
 WORLD_FNS = ["lock", "pop", "push", "create", "open", "remove_file", "metadata", "append", "sync", "sync_all", "copy", "read", "next", "sorted_fileids",
              "flush", "put", "delete", "get", "merge", "write", "new_active_datafile", "fileids_to_merge",
-             "rebuild_storage", "populate_keydir_with_hintfile", "populate_keydir_with_datafile", "set", "del"]
+             "rebuild_storage", "populate_keydir_with_hintfile", "populate_keydir_with_datafile", "set", "del",
+             "merge_on_interval", "sync_on_interval", "verif_blocking_merge", "verif_blocking_sync"]
 R_GHOST_ARG = make_ghost_arg_rule(WORLD_FNS, skip_after={"get": ["keydir"]}, only_after={"get": ["reader", "self"], "pop": ["readers"], "push": ["readers"]})
 
 
@@ -133,13 +134,23 @@ R_POOL_NEW1 = make_seq_rule("R-ghost-arg", "ArrayQueue::new(ctx.conf.concurrency
 R_POOL_NEW2 = make_seq_rule("R-ghost-arg", "ArrayQueue::new(ctx.conf.concurrency + 1)", "ArrayQueue::verif_new(ctx.conf.concurrency + 1, Tracked(w))")
 R_THREAD = make_seq_rule("R-thread", 'std::thread::Builder::new().name("bitcask-background-tasks".into()).spawn(move || background_tasks(handle, notify_shutdown))?;',
                          "verif_thread::spawn_background(handle, notify_shutdown)?;")
-OPEN_RULES = (R_ARC_NEW, R_ARC_CLONE_CTX, R_ARC_CLONE_HANDLE, R_POOL_NEW1, R_POOL_NEW2, R_THREAD)
+# R-ref-pattern: `&PAT = place_ref` is `PAT = *place_ref` (the fields bound are Copy)
+R_REF_PAT = make_seq_rule("R-ref-pattern", "&MergePolicy::Window { start, end } = policy", "MergePolicy::Window { start, end } = *policy")
+R_F64_CMP = make_seq_rule("R-f64-cmp", "entry.fragmentation() > self.conf.merge.triggers.fragmentation", "verif_f64_gt(entry.fragmentation(), self.conf.merge.triggers.fragmentation)")
+# background tasks (C18): ghost log of sleeps and hand-offs; Duration arithmetic as methods (operator traits on a shim type);
+# cloning the Handle is cloning three Arcs (R-arc for values)
+R_BG_GHOST = make_ghost_arg_rule(["sleep", "spawn_blocking", "merge_on_interval", "sync_on_interval"], skip_after={}, arg="Tracked(b)", param="Tracked(b): Tracked<&mut BgLog>")
+R_DUR_SUB = make_seq_rule("R-duration-op", "interval - jitter", "interval.verif_sub(jitter)")
+R_DUR_ADD = make_seq_rule("R-duration-op", "interval + jitter", "interval.verif_add(jitter)")
+R_ARC_CLONE_H = make_seq_rule("R-arc", "handle.clone()", "verif_arc_clone(&handle)", not_after=(".",))
+BG_RULES = (R_DUR_SUB, R_DUR_ADD, R_ARC_CLONE_H, make_mut_param_rule("shutdown"))
+OPEN_RULES = (R_REF_PAT, R_F64_CMP, R_ARC_NEW, R_ARC_CLONE_CTX, R_ARC_CLONE_HANDLE, R_POOL_NEW1, R_POOL_NEW2, R_THREAD)
 R_INTERIOR_KVSET = make_seq_rule("R-interior", "fn set(&self", "fn set(&mut self")
 R_INTERIOR_KVDEL = make_seq_rule("R-interior", "fn del(&self", "fn del(&mut self")
 # the supertraits / bounds of the trait are about threads and error reporting, not about what the methods compute
 R_KV_BOUNDS = make_seq_rule("R-bounds", "KeyValueStorage: Clone + Send + 'static", "KeyValueStorage: KvView")
 R_KV_ERR_BOUND = make_seq_rule("R-bounds", "type Error: std::error::Error + Send + Sync;", "type Error;")
-STORE_RULES = (R_VIS, R_VIS2, R_BREAK_VALUE, R_INTERIOR_CLOSE, R_INTERIOR_HPUT, R_INTERIOR_HDEL, R_INTERIOR_HMERGE, R_INTERIOR_HSYNC, R_INTERIOR_KVSET, R_INTERIOR_KVDEL) + OPEN_RULES + (R_GHOST_ARG, R_DASHMAP_ITER, R_FOR_COLLECT, R_ARC, R_ARC2, R_ARC3, R_INTERIOR_1, R_INTERIOR_2, R_INTERIOR_3,
+STORE_RULES = (R_VIS, R_VIS2, R_BREAK_VALUE, R_INTERIOR_CLOSE, R_INTERIOR_HPUT, R_INTERIOR_HDEL, R_INTERIOR_HMERGE, R_INTERIOR_HSYNC, R_INTERIOR_KVSET, R_INTERIOR_KVDEL) + OPEN_RULES + BG_RULES + (R_GHOST_ARG, R_BG_GHOST, R_DASHMAP_ITER, R_FOR_COLLECT, R_ARC, R_ARC2, R_ARC3, R_INTERIOR_1, R_INTERIOR_2, R_INTERIOR_3,
                R_INTERIOR_4, R_INTERIOR_5)
 
 BITCASK_ONLY = [
@@ -148,7 +159,7 @@ BITCASK_ONLY = [
     "impl Reader::fn get",
     "fn rebuild_storage", "fn populate_keydir_with_hintfile", "fn populate_keydir_with_datafile",
     "impl Writer::fn merge", "impl Context::fn fileids_to_merge",
-    "struct Bitcask", "impl Bitcask::fn open", "impl Bitcask::fn get_handle",
+    "struct Bitcask", "impl Bitcask::fn open", "impl Bitcask::fn get_handle", "impl Context::fn can_merge", "fn merge_on_interval", "fn sync_on_interval", "fn verif_blocking_merge", "fn verif_blocking_sync",
     "impl KeyValueStorage for Handle::type Error", "impl KeyValueStorage for Handle::fn set", "impl KeyValueStorage for Handle::fn get", "impl KeyValueStorage for Handle::fn del",
     "struct Handle", "impl Handle::fn put", "impl Handle::fn delete", "impl Handle::fn get", "impl Handle::fn merge", "impl Handle::fn sync", "impl Handle::fn close",
 ]
@@ -176,7 +187,9 @@ UNITS["store"] = {
         ("raw", "lemmas/durable_lemmas.rs", "lemma", {"mod": "bitcask"}),
         ("raw", "lemmas/size_lemmas.rs", "lemma", {"mod": "bitcask"}),
         ("raw", "lemmas/crashmerge_lemmas.rs", "lemma", {"mod": "bitcask"}),
-        ("repo", "src/storage/bitcask.rs", {"mod": "bitcask", "rules": STORE_RULES, "only": BITCASK_ONLY}),
+        ("repo", "src/storage/bitcask.rs", {"mod": "bitcask", "rules": STORE_RULES, "only": BITCASK_ONLY, "select": True,
+                                            "outline": {"fn merge_on_interval": {"kind": "blocking", "name": "verif_blocking_merge", "args": "handle", "params": "mut handle: Handle", "ret": "Result<(), Error>"},
+                                                        "fn sync_on_interval": {"kind": "blocking", "name": "verif_blocking_sync", "args": "handle", "params": "mut handle: Handle", "ret": "Result<(), Error>"}}}),
     ],
     "mod_uses": {
         "log": "use super::utils;\nuse super::io::Write;",
